@@ -1,5 +1,6 @@
 import GomlVerif.Driver.C05
 import GomlVerif.Driver.C10
+import GomlVerif.Driver.C12
 import GomlVerif.Driver.C15
 import GomlVerif.Driver.SemRun
 import GomlVerif.Driver.C11
@@ -8,6 +9,7 @@ def main (args : List String) : IO UInt32 := do
   match args with
   | ["c05"] => Goml.Driver.C05.main; return 0
   | ["c10"] => Goml.Driver.C10.main; return 0
+  | ["c12"] => Goml.Driver.C12.main; return 0
   | ["c15"] => Goml.Driver.C15.main; return 0
   | ["sem"] => Goml.Driver.SemRun.main; return 0
   | ["c11"] => Goml.Driver.C11.main; return 0
